@@ -626,8 +626,13 @@ class ModuleEnv:
             if isinstance(res, VList):
                 st.pc.append(res.length >= 0)
         sub.env['result'] = res
+        was_feasible = (not st.spec) and eng.feasible(st)
         for e in c.get('ensures', []):
             st.pc.append(sb(e, 'assume'))
+        if was_feasible and not eng.feasible(st):
+            # vacuity guard: assuming the callee's postcondition made a reachable state unreachable -- the callee contract contradicts the state
+            # it is applied to (typically a mutating callee whose contract lacks modifies_self): everything after the call would be proved vacuously
+            raise SpecError(f'contract {key} applied at L{getattr(node, "lineno", 0)} of {eng.qualname} contradicts the caller state (missing modifies_self / wrong frame?)')
         # frame: receiver fields listed in `modifies` are havocked then constrained by ensures_self
         return res
 
